@@ -106,6 +106,10 @@ class AddInterp:
         self.value_aliases = set()
         self.tainted_attrs = set()
         self.local_exprs = {}  # local name -> expression (conditions bound to a name, e.g. the result of an expanded helper)
+        self.set_aliases = set()   # local names bound to the warm-up set object (valid until self.warmup_set is re-bound)
+
+    def _is_set(self, e):
+        return _is_self_attr(e, 'warmup_set') or (isinstance(e, ast.Name) and e.id in self.set_aliases)
 
     def cond(self, e, st):
         if isinstance(e, ast.UnaryOp) and isinstance(e.op, ast.Not):
@@ -125,7 +129,7 @@ class AddInterp:
             return self.cond(e.args[0], st)
         if isinstance(e, ast.Compare) and len(e.ops) == 1:
             l, op, r = e.left, e.ops[0], e.comparators[0]
-            if isinstance(op, (ast.In, ast.NotIn)) and isinstance(l, ast.Name) and (l.id == self.value or l.id in self.derived) and _is_self_attr(r, 'warmup_set'):
+            if isinstance(op, (ast.In, ast.NotIn)) and isinstance(l, ast.Name) and (l.id == self.value or l.id in self.derived) and self._is_set(r):
                 if l.id != self.value:
                     st.effects.append(('member_test_on', l.id))
                 return st.member if isinstance(op, ast.In) else not st.member
@@ -139,7 +143,7 @@ class AddInterp:
 
     def _size_cmp(self, l, op, r, st):
         def is_len(x):
-            return isinstance(x, ast.Call) and isinstance(x.func, ast.Name) and x.func.id == 'len' and len(x.args) == 1 and _is_self_attr(x.args[0], 'warmup_set')
+            return isinstance(x, ast.Call) and isinstance(x.func, ast.Name) and x.func.id == 'len' and len(x.args) == 1 and self._is_set(x.args[0])
 
         def cap_offset(x):
             try:
@@ -209,7 +213,7 @@ class AddInterp:
         if isinstance(s, ast.Expr) and isinstance(s.value, ast.Call):
             c = s.value
             f = c.func
-            if isinstance(f, ast.Attribute) and f.attr == 'add' and _is_self_attr(f.value, 'warmup_set') and len(c.args) == 1:
+            if isinstance(f, ast.Attribute) and f.attr == 'add' and self._is_set(f.value) and len(c.args) == 1:
                 a = c.args[0]
                 st.effects.append(('set_add', a.id if isinstance(a, ast.Name) else ast.unparse(a)))
                 if isinstance(a, ast.Name) and a.id == self.value:
@@ -221,7 +225,7 @@ class AddInterp:
                 a = c.args[0]
                 st.effects.append(('update', a.id if isinstance(a, ast.Name) else ast.unparse(a)))
                 return
-            if isinstance(f, ast.Attribute) and f.attr in ('clear',) and _is_self_attr(f.value, 'warmup_set'):
+            if isinstance(f, ast.Attribute) and f.attr in ('clear',) and self._is_set(f.value):
                 st.effects.append(('clear_set',))
                 st.member, st.size = False, 'lt'
                 return
@@ -243,6 +247,7 @@ class AddInterp:
                 return
             if attr == 'warmup_set':
                 v = s.value
+                self.set_aliases = set()      # the attribute now names another object: the local aliases no longer denote the sketch's set
                 empty = (isinstance(v, ast.Dict) and not v.keys) or (isinstance(v, ast.Call) and isinstance(v.func, ast.Name) and v.func.id in ('set', 'dict', 'frozenset') and not v.args) or (isinstance(v, ast.Constant) and v.value is None)
                 if empty:
                     st.effects.append(('clear_set',))
@@ -254,7 +259,7 @@ class AddInterp:
                     self.tainted_attrs.add(attr)
                 return      # scratch attribute (e.g. the hasher object)
             raise Inconclusive(f'unrecognised assignment in add(): {ast.unparse(s)}')
-        if isinstance(s, ast.For) and _is_self_attr(s.iter, 'warmup_set') and isinstance(s.target, ast.Name):
+        if isinstance(s, ast.For) and self._is_set(s.iter) and isinstance(s.target, ast.Name):
             from ..match import is_noise_stmt
             body = [b for b in s.body if not isinstance(b, ast.Pass) and not is_noise_stmt(b)]
             ok = len(body) == 1 and isinstance(body[0], ast.Expr) and isinstance(body[0].value, ast.Call)
@@ -270,6 +275,10 @@ class AddInterp:
         if isinstance(s, ast.Assign) and len(s.targets) == 1 and isinstance(s.targets[0], ast.Name) and s.targets[0].id != self.value:
             # a local computed from the value (e.g. a digest), or a condition bound to a name
             names = {x.id for x in ast.walk(s.value) if isinstance(x, ast.Name)}
+            if self._is_set(s.value):
+                self.set_aliases.add(s.targets[0].id)
+                return
+            self.set_aliases.discard(s.targets[0].id)
             if isinstance(s.value, ast.Name) and (s.value.id == self.value or s.value.id in self.value_aliases):
                 self.value_aliases.add(s.targets[0].id)
                 return
